@@ -4,7 +4,8 @@
     text after the last newline being the last (possibly empty) line; [count_nl]; [after_nl c k] = length
     of the first k lines; [lines_between c a b] = concatenation of lines a..b-1 (1-based, clamped). *)
 From ZV Require Import Lib.Base Lib.GoSearch Lib.RuneCount Model.Lines
-  Proofs.LinesBasic Proofs.RuneCountProofs Proofs.LinesMatch Proofs.LinesMultiline Proofs.LinesChunk.
+  Proofs.LinesBasic Proofs.RuneCountProofs Proofs.RuneWidthUtf8 Proofs.LinesMatch Proofs.LinesMultiline Proofs.LinesChunk.
+From ZV Require Lib.Utf8.
 From Coq Require Import Sorting.Sorted.
 
 (** sort.Search as used by atOffset (and runeOffsetMap.lookup): least index of a monotone predicate *)
@@ -139,6 +140,13 @@ Theorem C03_chunks_ordered_disjoint : forall c ctx, (0 <= ctx)%Z -> forall c1 c2
 Proof. exact chunks_ordered_disjoint. Qed.
 Print Assumptions C03_chunks_ordered_disjoint.
 
+(** the columns count runes as Go does: the model's utf8.RuneCount (width table of Lib/RuneCount.v, skip-counter recursion)
+    equals the number of steps of Go's decoding loop as modelled in Lib/Utf8.v (DecodeRune with first/acceptRanges,
+    tied to unicode/utf8 by the C37 correspondence), for every byte string, valid UTF-8 or not *)
+Theorem C03_rune_count_is_go_decoder : forall l, rune_count l = Utf8.rune_count l.
+Proof. exact rune_count_utf8. Qed.
+Print Assumptions C03_rune_count_is_go_decoder.
+
 (** columnHelper: for EVERY sequence of calls (increasing or not) whose offsets are rune boundaries of
     their lines, each answer is the fresh rune count from the line start + 1 *)
 Theorem C03_column_cache_correct : forall data calls,
@@ -211,6 +219,8 @@ Example ex_chunk_result :
   Some [ ([97; 98; 10; 195; 169; 120; 10], (0, 1%Z, 1), [((1, 1%Z, 2), (5, 2%Z, 2)); ((5, 2%Z, 2), (6, 2%Z, 3))], false);
          ([121; 122], (8, 4%Z, 1), [((8, 4%Z, 1), (10, 4%Z, 3))], false) ]%N.
 Proof. vm_compute. reflexivity. Qed.
+Example ex_rune_count : rune_count ex_c = 9 /\ Utf8.rune_count ex_c = 9 /\ rune_count [195; 40; 240; 159; 152]%N = 5.
+Proof. vm_compute. repeat split; reflexivity. Qed.
 Example ex_col_calls : Forall (col_call_ok ex_c) [(3, 5); (3, 6); (0, 1)].
 Proof.
   repeat constructor; simpl; try lia; solve_bnd.
